@@ -6,6 +6,15 @@ pairs:  verus fn name -> list of Kani harness names to try for a concrete witnes
         obligation fails (Verus itself gives no counterexample)
 """
 PROPS = {
+    'C26': dict(
+        title='The on-disk B-tree behaves as a sorted multimap',
+        kani=['c26_varint'],
+        verus=['c26_page'],
+        pairs={},
+        native={},
+        native_all=['c26_multimap_quick'],
+        level_text='TBD', level_note='TBD', technique='TBD', design_ref='DESIGN.md §4 C26',
+    ),
     'C27': dict(
         title='Index key encoding preserves order and equality',
         kani=['c27_okey'],
@@ -88,5 +97,4 @@ PROPS = {
 
 # claimed in DESIGN.md but whose check is not built yet: listed under not_applicable until it is
 PENDING = {
-    'C26': 'check under construction (claimed in DESIGN.md §4; will move to checks when its units are committed)',
 }
